@@ -158,6 +158,7 @@ SUBS = {'cli': sub_cli, 'cli_process': sub_cli_process}
 SPECIAL_PREDS = (
     '{x = INF}', '{x != NAN}', '{x < 1e999}', '{x > 1e-999 and y = PI}', '{s = "ünïcödé ☃"}', '{s = "tab\\there"}', '{x in [0 to INF]}',
     '{forall i in {1, 2, INF}: @i > x}', '{x = E ** 2}', '{len(xs) > 0 and xs[0] = NAN}',
+    '{x > 1' + '0' * 400 + '}', '{x in {-1e999, 7' + '1' * 330 + '}}', '{x = -INF or y = 2.5E+300}', '{x < 18446744073709551616 and y > 5e-324}',
 )  # fmt: skip
 
 
